@@ -29,6 +29,15 @@ var commonAssumptions = []string{
 }
 
 var props = map[string]PropMeta{
+	"C13": {
+		Level: "fault_enumeration",
+		Rule: "a scripted session (5 data frames each way around one ping/pong round) is run fault-free to count the transport reads R and writes W; then one run per variant: k-th read fails (k=1..R+2), k-th write fails (k=1..W+2), peer close frame with each of 7 codes, peer EOF, reset, local close with/without reason - each variant x seeded schedules; " +
+			"non-trivial = the fault or remote close actually happened inside the session; distinct = distinct (variant, role, cause) tuples",
+		Real:       []string{"ws.WebsocketConnection", "gorilla/websocket (both ends)"},
+		Stub:       []string{"transport (simnet.Conn pair with per-call fault index)", "SHIP layer above ws (recorder)", "peer application (scripted)"},
+		QuickS:     25, ThoroughS: 300, QuickWorkers: 6,
+		Exhaustive: "index k of the failing transport read / write within the scripted session (every k up to the fault-free count + 2), close codes, close kinds",
+	},
 	"C12": {
 		Level: "exploration",
 		Rule: "one run = (role, 1-4 writer tasks x 1-6 writes, closing event of 7 kinds enabled after a drawn number of accepted writes) x one seeded schedule over every lock/channel/select/goroutine-start of ws; " +
